@@ -63,6 +63,8 @@ def project(line):
         return "U"
     if f[0] == "E2E":
         return "E2E " + ("same" if len(f) > 1 and f[1] == "same" else "DIFF")
+    if f[0] == "FILE":
+        return " ".join(f[:3] + [":".join(x.split(":")[:2]) for x in f[3:]])
     if f[0] == "H" and len(f) > 7:
         return " ".join(f[:5] + f[7:])
     return line
@@ -73,6 +75,11 @@ def meta_of_line(ln):
     f = ln.split()
     m = {"kind": "corpus", "route": "corpus", "method": f[1] if len(f) > 1 else "?", "classes": ["corpus"], "override": 0,
          "cfg": None, "world": None}
+    if f and f[0] == "filecfg":
+        try:
+            return G.filecfg_meta_from_line(ln)
+        except Exception:
+            return m
     if f and f[0] == "req":
         try:
             m["cfg"], m["world"] = G.parse_cfg_world(ln)
@@ -85,6 +92,8 @@ def meta_of_line(ln):
 def judge(case, meta, impl):
     if meta["kind"] == "e2e":
         return G.oracle_e2e(meta, impl)
+    if meta["kind"] == "filecfg":
+        return G.oracle_filecfg(meta, impl)
     if meta["cfg"] is None:
         return "skip", "corpus line without a parsable configuration (judged by the differential only)"
     return G.oracle(case, meta["cfg"], meta["world"], impl)
@@ -138,6 +147,11 @@ def run(chk, failed):
         c, m = G.gen_e2e(chk.rng, i)
         cases.append(c)
         metas.append(m)
+    n_file = 300 if not chk.thorough else 6000
+    for i in range(n_file):
+        c, m = G.gen_filecfg(chk.rng, i, os.path.join(C.REPO, "config"))
+        cases.append(c)
+        metas.append(m)
     chk.rule = ("requests against the real router (coordinator.router.ServeHTTP) with a scripted, typed storage/evaluator "
                 "backend and a generated viper configuration: every registered /v3 pattern x parameter pool (existing, "
                 "upper/lower-case, near-miss, dotted incl. <name>.class-name/.password, spaces, NUL, %2F, 4 KiB, unicode, "
@@ -146,13 +160,32 @@ def run(chk, failed):
                 "of every /v3 GET route for every name, both status views of every group in both orders and repeated inside the "
                 "evaluator's cache lifetime, answered by a stack that served a batch of GETs before and by one that did not, status "
                 "code + canonicalised body pairwise and per repetition -- plus the dump of every Fetch type with and without GETs "
-                "served, clock moved across expiry; groups with OK partitions listed before non-OK ones); "
+                "served, clock moved across expiry; groups with OK partitions listed before non-OK ones); plus file-configuration "
+                "cases (a TOML document read with viper.ReadConfig, the real zookeeper/storage/evaluator/httpserver/notifier/cluster/"
+                "consumer coordinators configured in start-up order, then every /v3/config/** and /v3/kafka/:cluster route for every "
+                "module name of the file in written / lower / upper case, near-misses and dotted names); "
                 "non-trivial = the request reaches a /v3 handler with at least one path parameter and a typed backend, or a "
                 "storage-backed case with at least one live group; distinct by the case line")
     impl, model, mism = chk.differential(*PROBE, cases, name="req", project=project)
     bad = []
     for i, (c, m, a) in enumerate(zip(cases, metas, impl)):
         verdict, why = judge(c, m, a)
+        if m["kind"] == "filecfg":
+            chk.count("route:file configuration + real coordinators")
+            chk.count("file:requests", len(m["reqs"]))
+            for sect in G.FILE_SECTIONS:
+                k = len(m["cfg"].get(sect, {}))
+                chk.count("file:%s-modules-%s" % (sect, k if k < 3 else "3+"))
+            if any(nm != nm.lower() for sect in G.FILE_SECTIONS for nm in m["cfg"].get(sect, {})):
+                chk.count("file:cases with a mixed-case module name")
+            if any(v.get("cluster", ("s", ""))[1] not in m["cfg"]["cluster"] for v in m["cfg"].get("consumer", {}).values()):
+                chk.count("file:cases where a consumer names its cluster in another case")
+            if len(m["cfg"].get("consumer", {})) >= 2:
+                chk.nontrivial.add(C.case_hash(c))
+            chk.count("oracle:" + (why if verdict != "violation" else "VIOLATION"))
+            if verdict == "violation":
+                bad.append((i, c, a, why))
+            continue
         if m["kind"] == "e2e":
             chk.count("route:storage-backed twin stacks")
             chk.count("e2e:gets", len(m["gets"]))
@@ -190,15 +223,22 @@ def run(chk, failed):
     reported = 0
     known = set()
     for (i, c, a, why) in bad:
-        key = G.classify(c, why) if metas[i]["kind"] != "e2e" else None
+        key = G.classify(c, why) if metas[i]["kind"] not in ("e2e", "filecfg") else None
         if key and chk.known_finding(key, c):
             known.add(key)
             continue
         if reported < 5:
             reported += 1
-            req = "storage-backed case" if metas[i]["kind"] == "e2e" else (G.parse_case(c)["method"] + " " + G.parse_case(c)["raw"][:300])
+            extra = {}
+            if metas[i]["kind"] == "e2e":
+                req = "storage-backed case"
+            elif metas[i]["kind"] == "filecfg":
+                req = "configuration file (TOML, viper.ReadConfig) + real coordinators configured in start-up order, then the sweep"
+                extra = {"toml": metas[i]["doc"]}
+            else:
+                req = G.parse_case(c)["method"] + " " + G.parse_case(c)["raw"][:300]
             chk.violation("req_%d" % i, {"kind": "input", "probe": "httpserver/TestVerifProbeHttp", "case": c,
-                                         "request": req,
+                                         "request": req, **extra,
                                          "impl_output": a, "model_output": model[i], "oracle_verdict": why,
                                          "classifier": key,
                                          "broken": "C16 envelope / read-only rule on the implementation's response",
@@ -210,7 +250,7 @@ def run(chk, failed):
         # on the registrations involved before reporting a bare correspondence failure
         routes = []
         for (i, c, a, b) in rest:
-            if metas[i]["kind"] == "e2e" or not c.startswith("req"):
+            if metas[i]["kind"] in ("e2e", "filecfg") or not c.startswith("req"):
                 continue
             rt, _ = route_of(c)
             if rt is not None and rt[1].startswith("/v3") and rt not in routes:
@@ -232,7 +272,7 @@ def run(chk, failed):
                          "failing inputs were found)" % len(rest))
         rest = []
     for (i, c, a, b) in rest[:5]:
-        req = "storage-backed case" if metas[i]["kind"] == "e2e" or not c.startswith("req") else \
+        req = metas[i]["kind"] + " case" if metas[i]["kind"] in ("e2e", "filecfg") or not c.startswith("req") else \
             (G.parse_case(c)["method"] + " " + G.parse_case(c)["raw"][:300])
         chk.violation("corr_%d" % i, {"kind": "input", "probe": "httpserver/TestVerifProbeHttp", "case": c,
                                       "request": req,
@@ -277,7 +317,12 @@ def replay(path):
     impl, model, mism = chk.differential(*PROBE, [case], name="replay", project=project)
     print("impl :", impl[0][:2000])
     print("model:", model[0][:2000])
-    if case.startswith("e2e"):
+    if case.startswith("filecfg"):
+        m = G.filecfg_meta_from_line(case)
+        verdict, why = G.oracle_filecfg(m, impl[0])
+        key = None
+        print(m["doc"])
+    elif case.startswith("e2e"):
         verdict, why = ("violation", "dumps differ") if project(impl[0]) != "E2E same" else ("ok", "e2e-same (codes not re-judged on replay)")
         key = None
     else:
